@@ -76,6 +76,16 @@ def check_value(ctx, res, v, origin):
         if pyval.canon(execnet.load(f)) != pyval.canon(v):
             res.violations.append(dict(case=case, what="load(stream) != v", impl=""))
             return None
+        # a stream that hands out short reads (pipe, socket): at most k bytes per read() call, k derived from the bytes
+        k = (1, 2, 3, 7, 64)[len(out[1]) % 5]
+        try:
+            back = execnet.load(ShortReads(out[1] + b"TRAILER", k))
+        except Exception as e:  # noqa: BLE001
+            res.violations.append(dict(case=case, what="load() from a stream giving <= %d bytes per read raised %r" % (k, e), impl=out[1].hex()[:200]))
+            return None
+        if pyval.canon(back) != pyval.canon(v) or type(back) is not type(out[2]):
+            res.violations.append(dict(case=case, what="load() from a stream giving <= %d bytes per read != v" % k, impl=repr(back)[:200]))
+            return None
         return ("ok", out[1])
     if out[0] == "DumpError":
         res.stat("impl_DumpError")
@@ -91,6 +101,19 @@ def check_value(ctx, res, v, origin):
     res.violations.append(dict(case=case, what="dumps raised %s instead of DumpError/success" % type(exc).__name__,
                                finding=classify(v, exc)))
     return ("ValueError",) if isinstance(exc, ValueError) else None
+
+
+class ShortReads:
+    """a binary stream whose read(n) returns at most k bytes (never more than asked for)"""
+
+    def __init__(self, data, k):
+        self.data, self.pos, self.k = data, 0, k
+
+    def read(self, n=-1):
+        n = self.k if n is None or n < 0 else min(n, self.k)
+        piece = self.data[self.pos:self.pos + n]
+        self.pos += len(piece)
+        return piece
 
 
 def compare_model(ctx, res, items):
